@@ -104,11 +104,9 @@ def check(ctx):
         if n_txt is not None:
             nv = fold_in(wnc, ast.parse(n_txt, mode='eval').body)
             if nv is not UNKNOWN:
-                okc = nv == wmax and any(c.replace(' ', '') in ('len(self._data)>%s' % maxn, 'len(self._data)>self.MAX_DATA_LENGTH',
-                                                                'len(self._data)>%d' % wmax) for c in conds)
+                okc = nv == wmax and any(fact_key('len(self._data) > %s' % mx, True) in p.fact_keys(orig=False) for mx in (maxn, 'self.MAX_DATA_LENGTH', str(wmax)))
             elif n_txt == 'len(self._data)':
-                okc = any(c.replace(' ', '') in ('notlen(self._data)>%s' % maxn, 'notlen(self._data)>self.MAX_DATA_LENGTH',
-                                                 'notlen(self._data)>%d' % wmax) for c in conds)
+                okc = any(fact_key('len(self._data) > %s' % mx, False) in p.fact_keys(orig=False) for mx in (maxn, 'self.MAX_DATA_LENGTH', str(wmax)))
             elif n_txt.replace(' ', '') in ('min(len(self._data),%s)' % maxn, 'min(%s,len(self._data))' % maxn):
                 okc = True
         ctx.inst('R1', wnc, 'write-chunk=min(remaining,MAX)', okc, 'chunk length %s under %s must be min(len(data), %d)' % (n_txt, conds, wmax))
@@ -161,11 +159,9 @@ def check(ctx):
         if ln is not None:
             lv = fold_in(rnc, pkdata.args[3])
             if lv is not UNKNOWN:
-                okc = lv == rmax and any(c.replace(' ', '') in ('self._bytes_left>%s' % maxn, 'self._bytes_left>self.MAX_DATA_LENGTH',
-                                                                'self._bytes_left>%d' % rmax) for c in conds)
+                okc = lv == rmax and any(fact_key('self._bytes_left > %s' % mx, True) in p.fact_keys(orig=False) for mx in (maxn, 'self.MAX_DATA_LENGTH', str(rmax)))
             elif ln == 'self._bytes_left':
-                okc = any(c.replace(' ', '') in ('notself._bytes_left>%s' % maxn, 'notself._bytes_left>self.MAX_DATA_LENGTH',
-                                                 'notself._bytes_left>%d' % rmax) for c in conds)
+                okc = any(fact_key('self._bytes_left > %s' % mx, False) in p.fact_keys(orig=False) for mx in (maxn, 'self.MAX_DATA_LENGTH', str(rmax)))
             elif ln.replace(' ', '') in ('min(self._bytes_left,%s)' % maxn, 'min(%s,self._bytes_left)' % maxn):
                 okc = True
         ctx.inst('R1', rnc, 'read-chunk=min(remaining,MAX)', okc, 'requested length %s under %s must be min(bytes left, %d)' % (ln, conds, rmax))
@@ -211,8 +207,8 @@ def check(ctx):
             ns = len(p.calls(lambda c: norm(c.func) == okcb))
             nf = len(p.calls(lambda c: norm(c.func) == failcb))
             conds = p.cond_texts(orig=True)
-            st0 = any(c.replace(' ', '') == 'status==0' for c in conds)
-            stn = any(c.replace(' ', '') == 'notstatus==0' for c in conds)
+            st0 = fact_key('status == 0', True) in p.fact_keys()
+            stn = fact_key('status == 0', False) in p.fact_keys()
             sig = (npop, ns, nf, st0, stn)
             if sig in seen:
                 continue
